@@ -3,6 +3,7 @@ package an
 import (
 	"fmt"
 	"go/token"
+	"go/types"
 	"sort"
 
 	"golang.org/x/tools/go/ssa"
@@ -23,6 +24,172 @@ type Walker struct {
 	// it returns the successor index to take, or -1 to fall back to the
 	// valuation, or -2 to stop the walk (recorded in Walk.Fork).
 	Choose func(iff *ssa.If, w *Walk) int
+	// NoInline disables the evaluation of in-module bool helpers used as
+	// branch conditions through their own truth table.
+	NoInline bool
+	// Helpers are calls in Fn of module functions whose own branch atoms
+	// (translated into Fn's vocabulary) take part in the valuation, so that a
+	// client can interpret them under the same valuation (HelperVal).
+	Helpers []*ssa.Call
+	inl     map[*ssa.Call]*inlined
+}
+
+// helperInl builds the translation for a value-returning helper call.
+func (w *Walker) helperInl(call *ssa.Call) *inlined {
+	if il, ok := w.inl[call]; ok {
+		return il
+	}
+	f := call.Common().StaticCallee()
+	if f == nil || len(f.Blocks) == 0 {
+		return nil
+	}
+	sw := &Walker{Fn: f, Atom: w.Atom}
+	il := &inlined{w: sw, atoms: map[string]string{}}
+	subst := map[int]string{}
+	for i, a := range call.Common().Args {
+		subst[i] = Canon(a)
+	}
+	for _, a := range sw.CondAtoms() {
+		il.atoms[translateAtom(a, subst)] = a
+	}
+	if w.inl == nil {
+		w.inl = map[*ssa.Call]*inlined{}
+	}
+	w.inl[call] = il
+	return il
+}
+
+// HelperAtoms returns, for a helper call, the map caller-side atom -> callee-side atom.
+func (w *Walker) HelperAtoms(call *ssa.Call) map[string]string {
+	if il := w.helperInl(call); il != nil {
+		return il.atoms
+	}
+	return nil
+}
+
+// HelperVal gives the valuation of a helper call's own atoms under this walk.
+func (k *Walk) HelperVal(call *ssa.Call) (map[string]bool, bool) {
+	il := k.W.inl[call]
+	if il == nil {
+		return nil, false
+	}
+	sub := map[string]bool{}
+	for callerAtom, calleeAtom := range il.atoms {
+		x, has := k.Val[callerAtom]
+		if !has {
+			return nil, false
+		}
+		sub[calleeAtom] = x
+	}
+	return sub, true
+}
+
+// inlined is a boolean helper of the module used as a branch condition: its
+// own walker, and its atoms translated into the caller's vocabulary.
+type inlined struct {
+	w     *Walker
+	atoms map[string]string // caller-side atom -> callee-side atom
+}
+
+// boolHelper recognises `if helper(args...)`: a static call of a module
+// function with a body that returns a single bool.
+func (w *Walker) boolHelper(v ssa.Value, depth int) *inlined {
+	if w.NoInline || depth > 3 {
+		return nil
+	}
+	call, ok := v.(*ssa.Call)
+	if !ok {
+		return nil
+	}
+	if il, ok := w.inl[call]; ok {
+		return il
+	}
+	f := call.Common().StaticCallee()
+	if f == nil || !InModule(f) || len(f.Blocks) == 0 || f.Signature.Results().Len() != 1 || f == w.Fn {
+		return nil
+	}
+	if b, ok := f.Signature.Results().At(0).Type().Underlying().(*types.Basic); !ok || b.Kind() != types.Bool {
+		return nil
+	}
+	if _, trivial := TrivialGetter(f); trivial {
+		return nil
+	}
+	sw := &Walker{Fn: f, Atom: w.Atom}
+	il := &inlined{w: sw, atoms: map[string]string{}}
+	subst := map[int]string{}
+	for i, a := range call.Common().Args {
+		subst[i] = Canon(a)
+	}
+	for _, a := range sw.CondAtoms() {
+		il.atoms[translateAtom(a, subst)] = a
+	}
+	if w.inl == nil {
+		w.inl = map[*ssa.Call]*inlined{}
+	}
+	w.inl[call] = il
+	return il
+}
+
+// Inlined lists the helper functions whose truth tables were folded into this walker's atoms.
+func (w *Walker) Inlined() []*ssa.Function {
+	var out []*ssa.Function
+	for _, il := range w.inl {
+		out = append(out, il.w.Fn)
+		out = append(out, il.w.Inlined()...)
+	}
+	return out
+}
+
+// translateAtom rewrites the callee's parameter references ($i, not $$i) by the
+// caller-side expressions and re-normalises commutative comparisons.
+func translateAtom(a string, subst map[int]string) string {
+	var sb []byte
+	for i := 0; i < len(a); i++ {
+		if a[i] == '$' && (i == 0 || a[i-1] != '$') && i+1 < len(a) && a[i+1] >= '0' && a[i+1] <= '9' {
+			j := i + 1
+			n := 0
+			for j < len(a) && a[j] >= '0' && a[j] <= '9' {
+				n = n*10 + int(a[j]-'0')
+				j++
+			}
+			if r, ok := subst[n]; ok {
+				sb = append(sb, r...)
+				i = j - 1
+				continue
+			}
+		}
+		sb = append(sb, a[i])
+	}
+	return normCommutative(string(sb))
+}
+
+// normCommutative sorts the two operands of a top-level ==(A,B).
+func normCommutative(s string) string {
+	if len(s) < 5 || s[:3] != "==(" || s[len(s)-1] != ')' {
+		return s
+	}
+	body := s[3 : len(s)-1]
+	depth := 0
+	inStr := false
+	for i := 0; i < len(body); i++ {
+		c := body[i]
+		switch {
+		case c == '"' && (i == 0 || body[i-1] != '\\'):
+			inStr = !inStr
+		case inStr:
+		case c == '(' || c == '[' || c == '{':
+			depth++
+		case c == ')' || c == ']' || c == '}':
+			depth--
+		case c == ',' && depth == 0:
+			a, b := body[:i], body[i+1:]
+			if b < a {
+				a, b = b, a
+			}
+			return "==(" + a + "," + b + ")"
+		}
+	}
+	return s
 }
 
 // Walk is the state of one walk.
@@ -105,10 +272,31 @@ func (w *Walker) CondAtoms() (atoms []string) {
 			}
 			continue
 		}
+		if inner, _ := Not(iff.Cond); true {
+			if il := w.boolHelper(inner, 0); il != nil {
+				for a := range il.atoms {
+					if !seen[a] {
+						seen[a] = true
+						atoms = append(atoms, a)
+					}
+				}
+				continue
+			}
+		}
 		name, _ := w.Atom(iff.Cond)
 		if !seen[name] {
 			seen[name] = true
 			atoms = append(atoms, name)
+		}
+	}
+	for _, hc := range w.Helpers {
+		if il := w.helperInl(hc); il != nil {
+			for a := range il.atoms {
+				if !seen[a] {
+					seen[a] = true
+					atoms = append(atoms, a)
+				}
+			}
 		}
 	}
 	sort.Strings(atoms)
@@ -130,6 +318,21 @@ func (k *Walk) EvalBool(v ssa.Value) (val bool, ok bool) {
 			return k.EvalBool(e)
 		}
 		return false, false
+	}
+	if il := k.W.boolHelper(v, 0); il != nil {
+		sub := map[string]bool{}
+		for callerAtom, calleeAtom := range il.atoms {
+			x, has := k.Val[callerAtom]
+			if !has {
+				return false, false
+			}
+			sub[calleeAtom] = x
+		}
+		k2 := il.w.Run(sub)
+		if k2.Undecided != "" || k2.Ret == nil || len(k2.Ret.Results) != 1 {
+			return false, false
+		}
+		return k2.EvalBool(k2.Resolve(k2.Ret.Results[0]))
 	}
 	name, aneg := k.W.Atom(v)
 	x, has := k.Val[name]
